@@ -41,6 +41,9 @@ structure MUn where
   /-- nodes with a connected broker client when the request started -/
   connAtStart : List Int
   known : Option (List Int) := .none
+  /-- brokers the client knew before the step in which the request started (a lower bound of `known`, which is
+      only available once that step's cache dump arrives) -/
+  known0 : List Int := []
   bad : Bool := false
   deriving Repr
 
@@ -56,6 +59,12 @@ structure MSt where
   /-- sends completed in the current step: checked at the end of the step, when the step's own
       cache dump (the metadata the routing may have used) is known -/
   pendingChecks : List (Nat × List Int × List Nat) := []
+  /-- sends that issued all their requests and then failed with a broker's error code (`fail_on_error`): their
+      routing is checked like that of a completed send -/
+  pendingRouting : List Nat := []
+  /-- coordinator requests (`_send_request_to_coordinator`) issued in the current step: request, broker client,
+      group, the cache before the step -/
+  pendingCoord : List (Nat × Nat × String × Cache) := []
   /-- metadata load operation ↦ its broker-unaware request -/
   loadUn : List (Nat × Nat) := []
   /-- operations that were cancelled, or started when the client was closed (their failure is not the
@@ -116,6 +125,20 @@ def checkStale (s : MSt) (op : MOp) : List String :=
       | _, _ => true)) then []
   else ["a payload was sent to a broker that the metadata current at send time no longer named for it"]
 
+/-- routing checks of a send all of whose requests were issued: one request per broker, the requests partition
+    the payload list in order, each payload went to a broker the metadata named for it -/
+def checkRouting (s : MSt) (op : MOp) : List String :=
+  let rs := s.reqs.filter (fun r => r.op == some op.o)
+  let n := op.keys.length
+  let nodes := rs.filterMap (fun r => nodeOf s r.b)
+  let c1 := if nodup nodes && nodes.length == rs.length then [] else [s!"op {op.o}: more than one request to the same broker"]
+  let c2 := if sortNats (rs.flatMap (·.idxs)) == List.range n && rs.all (fun r => ascending r.idxs) then []
+            else [s!"op {op.o}: the requests do not partition the payload list in order"]
+  let c3 := if rs.all (fun r => r.idxs.all (fun i => match op.keys[i]?, nodeOf s r.b with
+              | some key, some node => op.hist.any (fun c => responsible c key op.group == some node)
+              | _, _ => false)) then [] else [s!"op {op.o}: a payload was sent to a broker the metadata never named for it"]
+  c1 ++ c2 ++ c3
+
 /-- checks at the completion of a send with `responses` / `FailedPayloadsError` -/
 def checkSend (s : MSt) (op : MOp) (tags : List Int) (failed : List Nat) : List String :=
   let rs := s.reqs.filter (fun r => r.op == some op.o)
@@ -145,7 +168,9 @@ def connectedNodes (s : MSt) : List Int :=
 def getUn (s : MSt) (u : Nat) : MSt × MUn :=
   match (s.uns.filter (fun x => x.u == u)).head? with
   | some x => (s, x)
-  | .none => let x : MUn := { u := u, connAtStart := connectedNodes s }; ({ s with uns := s.uns ++ [x] }, x)
+  | .none =>
+    let x : MUn := { u := u, connAtStart := connectedNodes s, known0 := s.lastDump.brokers.map (·.1) }
+    ({ s with uns := s.uns ++ [x] }, x)
 
 def setUn (s : MSt) (x : MUn) : MSt := { s with uns := s.uns.map (fun y => if y.u == x.u then x else y) }
 
@@ -173,7 +198,11 @@ def stepItem (cfg : Cfg) (s : MSt) : TItem → MSt
     match o with
     | .bcNew b node _ _ => { s with bcNode := s.bcNode ++ [(b, node)] }
     | .bcClose b => { s with bcClosed := s.bcClosed ++ [b] }
-    | .mk k b _ _ => { s with reqs := s.reqs ++ [{ k := k, b := b, cands := [s.lastDump] }] }
+    | .mk k b _ what =>
+      let s1 := { s with reqs := s.reqs ++ [{ k := k, b := b, cands := [s.lastDump] }] }
+      (match what with
+       | .group g => { s1 with pendingCoord := s1.pendingCoord ++ [(k, b, g, s.lastDump)] }
+       | _ => s1)
     | .fired k kd =>
       setReq s k (fun q => match q.outcome with
         | .none => { q with outcome := match kd with | .none => .ok [] | some _ => .failed }
@@ -200,13 +229,17 @@ def stepItem (cfg : Cfg) (s : MSt) : TItem → MSt
          | .fail kd =>
            -- routing failures: nothing may have been sent for this operation
            if (kd == .partitionUnavailable || kd == .leaderUnavailable) && s1.reqs.any (fun q => q.op == some op)
-           then fail s1 s!"op {op}: requests were sent although routing failed" else s1
+           then fail s1 s!"op {op}: requests were sent although routing failed"
+           else (match kd with
+             | .brokerError _ => { s1 with pendingRouting := s1.pendingRouting ++ [op] }
+             | _ => s1)
          | _ => s1)
     | _ => s
   | .dump c =>
     let s : MSt := { s with reqs := s.reqs.map (fun (q : MReq) => if q.cands.length == 1 then { q with cands := q.cands ++ [c] } else q) }
     let s0 := { s with lastDump := c, ops := s.ops.map (fun (x : MOp) =>
-      if x.done && !s.pendingChecks.any (fun (p : Nat × List Int × List Nat) => p.1 == x.o) then x else { x with hist := x.hist ++ [c] }) }
+      if x.done && !s.pendingChecks.any (fun (p : Nat × List Int × List Nat) => p.1 == x.o) && !s.pendingRouting.contains x.o then x
+      else { x with hist := x.hist ++ [c] }) }
     let newFails := s0.pendingChecks.flatMap (fun (p : Nat × List Int × List Nat) =>
       match (s0.ops.filter (fun (x : MOp) => x.o == p.1)).head? with
       | some x => checkSend s0 x p.2.1 p.2.2
@@ -215,7 +248,24 @@ def stepItem (cfg : Cfg) (s : MSt) : TItem → MSt
       match (s0.ops.filter (fun (x : MOp) => x.o == p.1)).head? with
       | some x => if (checkSend s0 x p.2.1 p.2.2).isEmpty then checkStale s0 x else []
       | Option.none => [])
-    let s1 := { s0 with pendingChecks := [], fails := s0.fails ++ newFails, staleFails := s0.staleFails ++ newStale }
+    let newRouting := s0.pendingRouting.flatMap (fun (o : Nat) =>
+      match (s0.ops.filter (fun (x : MOp) => x.o == o)).head? with
+      | some x => checkRouting s0 x
+      | Option.none => [])
+    let staleRouting := s0.pendingRouting.flatMap (fun (o : Nat) =>
+      match (s0.ops.filter (fun (x : MOp) => x.o == o)).head? with
+      | some x => if (checkRouting s0 x).isEmpty then checkStale s0 x else []
+      | Option.none => [])
+    -- a coordinator request goes to the broker the cache names as the group's coordinator (before the step,
+    -- or after it: the step itself may have looked the coordinator up)
+    let newCoord := s0.pendingCoord.flatMap (fun (p : Nat × Nat × String × Cache) =>
+      match nodeOf s0 p.2.1 with
+      | some node =>
+        if responsible p.2.2.2 ("", 0) (some p.2.2.1) == some node || responsible c ("", 0) (some p.2.2.1) == some node then []
+        else [s!"request {p.1}: coordinator request for group {p.2.2.1} sent to a broker that is not its coordinator"]
+      | Option.none => [s!"request {p.1}: coordinator request on an unknown broker client"])
+    let s1 := { s0 with pendingChecks := [], pendingRouting := [], pendingCoord := [],
+                        fails := s0.fails ++ newFails ++ newRouting ++ newCoord, staleFails := s0.staleFails ++ newStale ++ staleRouting }
     { s1 with uns := s1.uns.map (fun (x : MUn) => match x.known with | Option.none => { x with known := some (c.brokers.map (·.1)) } | some _ => x) }
   | .attr k o idxs => setReq s k (fun q => { q with op := some o, idxs := idxs })
   | .uop u o => { s with loadUn := s.loadUn ++ [(o, u)] }
@@ -242,9 +292,8 @@ def stepItem (cfg : Cfg) (s : MSt) : TItem → MSt
        let s2 := setUn s1 x'
        let s3 := if x.boots.contains hp || !cfg.bootHosts.contains hp then fail s2 s!"unaware {u}: bootstrap host tried twice or unknown" else s2
        -- falling back to bootstrap only after every known broker was tried
-       match x.known with
-       | some known => if known.all (fun n => x.tried.contains n) then s3 else fail s3 s!"unaware {u}: bootstrap before every known broker was tried"
-       | .none => s3)
+       let known := match x.known with | some known => known | .none => x.known0
+       if known.all (fun n => x.tried.contains n) then s3 else fail s3 s!"unaware {u}: bootstrap before every known broker was tried")
   | _ => s
 
 def run (cfg : Cfg) (tr : List TItem) : MSt := tr.foldl (stepItem cfg) {}
